@@ -297,22 +297,25 @@ def run_shards(u, prop, tier, seed, log, extra=None, scale=1.0, per_shard=None):
     per = max(1, cases // nsh)
     base = os.path.join(BUILD, "runs", "%s_%s_%s_%d" % (prop, u.name, tier, os.getpid()))
     shutil.rmtree(base, ignore_errors=True)
-    procs = []
-    for i in range(nsh):
-        d = os.path.join(base, "s%02d" % i)
+    t_end = time.time() + secs
+    def launch(i, gen):
+        d = os.path.join(base, "s%02d" % i if gen == 0 else "s%02d_r%d" % (i, gen))
         os.makedirs(d)
         ex = dict(extra or {})
         if per_shard:
             ex.update(per_shard(i, d))
-        cmd = unit_cmd(u, prop, ex) + ["--out", d, "--seed", str(seed * 131 + i + 1), "--cases", str(per),
-                                           "--secs", str(secs), "--max-size", str(u.max_size)]
+        left = secs if gen == 0 else max(1.0, t_end - time.time())
+        cmd = unit_cmd(u, prop, ex) + ["--out", d, "--seed", str(seed * 131 + i + 1 + 7919 * gen), "--cases", str(per),
+                                           "--secs", str(left), "--max-size", str(u.max_size)]
         if u.pin:
             cmd += ["--cpu", str(i % NCPU)]
         lf = open(os.path.join(d, "log.txt"), "wb")
-        procs.append((i, d, subprocess.Popen(cmd, env=run_env(), stdout=lf, stderr=subprocess.STDOUT), lf))
+        return (i, gen, d, subprocess.Popen(cmd, env=run_env(), stdout=lf, stderr=subprocess.STDOUT), lf)
+    procs = [launch(i, 0) for i in range(nsh)]
     results = []
     hard = time.time() + secs * 4 + 300
-    for i, d, p, lf in procs:
+    while procs:
+        i, gen, d, p, lf = procs.pop(0)
         try:
             code = p.wait(timeout=max(1, hard - time.time()))
         except subprocess.TimeoutExpired:
@@ -325,6 +328,12 @@ def run_shards(u, prop, tier, seed, log, extra=None, scale=1.0, per_shard=None):
             st = json.load(open(os.path.join(d, "stats.json")))
         except Exception:
             pass
+        if code == 77:
+            # the process left because the running case belongs to a known finding and could not be continued (counted in its
+            # stats as excluded): not a failure; use the rest of the shard's budget in a fresh process
+            code = 0
+            if gen < 40 and time.time() < t_end - 1 and not per_shard:
+                procs.append(launch(i, gen + 1))
         results.append(dict(shard=i, dir=d, code=code, stats=st))
     return base, results
 
